@@ -18,7 +18,7 @@ RULE = ('bodies from the G-doc grammar (safe text policy; paragraphs, headings, 
         'Relations: R1 snippet occurs verbatim in complete and prefix/suffix do not depend on the body; R2 default is exactly one of the two, '
         'complete iff a non-control key is present; R3 other keys (any values, any order) never change the snippet; R4 control keys change '
         'only what they document (base header level shifts <hN>; language keys leave a smart-less, note-less snippet unchanged). '
-        'Non-trivial: body with >=2 blocks and >=1 metadata key; distinct by (source, format, extensions).')
+        'Also: tiny bodies of emphasis markers and quotes that start at byte 0 of the text (what precedes the text -- nothing or a metadata block -- must not matter). Non-trivial: body with >=2 blocks and >=1 metadata key; distinct by (source, format, extensions).')
 ASSUMPTIONS = ['generated glossary definitions never cite (known finding R1:...:glossary-definition-cites, reproduced by its committed seed only)',
                'bibtex, mmd header/footer and transclude base are never generated (documented to act on body/input; C06/C13 exercise them)',
                'bodies contain no [%key] variables; the first body line never has the shape `key: value`',
